@@ -39,6 +39,7 @@ Pointless(inst, pre, a) == FALSE
 StepBound(inst) == inst.K
 \* rows of one batch share N but may carry different quotas (to_choose is a per-row
 \* tensor): a row with K < N can finish before a batch-mate; a row with K = N cannot.
+\* (C04: its reward must then not move while it is stepped on -- Trace M_PadC04, BatchEq.)
 PadNeeded(inst) == inst.K < inst.N
 
 \* C08, per step.  st = what the environment shows after `pre`:
@@ -58,24 +59,29 @@ FinalOK(inst, sol, fin) == Len(sol) = inst.K /\ NoDup(sol)
 \* state of FLPEnv: chosen (bool vector), i (step counter), distances (feature)
 Init0(inst) == [chosen |-> {}, i |-> 0, dist |-> [k \in 1..inst.N |-> inst.dist0]]
 
-\* FLPEnv._step: action_mask = ~chosen.  QUIRK NoDoneGate: the mask is not gated by
-\* `done`, a finished row is offered (only) the locations it has not chosen yet, and
-\* choosing one of them changes `chosen` -- there is no no-op for finished rows.
-Mask(inst, s) == Locs(inst) \ s.chosen
-
-\* FLPEnv._step: gather the ROWS orig_distances[f, :] of all chosen f, min over them
-RowMin(inst, F) == [k \in 1..inst.N |-> MinOf({inst.D[f + 1][k] : f \in F})]
-
-Step(inst, s, a) ==
-  LET ch == s.chosen \cup {a} IN
-  [chosen |-> ch, i |-> s.i + 1, dist |-> RowMin(inst, ch)]
-
 \* FLPEnv._step: done = td["i"] >= to_choose - 1 with the counter BEFORE the increment,
 \* i.e. new counter >= to_choose; reset reports done = False
 Done(inst, s) == s.i >= 1 /\ s.i >= inst.K
 
+\* FLPEnv._step: action_mask = ~chosen | done.  A finished row accepts ANY action as
+\* padding.  (Fix "FLP/MCP instances that reached their quota ignore further (padding)
+\* selections".  FORMER behaviour, quirk NoDoneGate: action_mask = ~chosen, not gated by
+\* done -- a finished row was offered only locations it had not chosen, choosing one
+\* grew `chosen` and changed its reward whenever quotas differed inside a batch.)
+Mask(inst, s) == IF Done(inst, s) THEN Locs(inst) ELSE Locs(inst) \ s.chosen
+
+\* FLPEnv._step: min over the rows orig_distances[f, :] of the chosen f (masked_fill inf)
+RowMin(inst, F) == [k \in 1..inst.N |-> MinOf({inst.D[f + 1][k] : f \in F})]
+
+\* FLPEnv._step: finished = td["i"] >= to_choose (before this step) keeps `chosen` as it
+\* was: padding is a no-op on the selection (FORMER behaviour: always chosen + {a});
+\* the counter i still advances
+Step(inst, s, a) ==
+  LET ch == IF Done(inst, s) THEN s.chosen ELSE s.chosen \cup {a} IN
+  [chosen |-> ch, i |-> s.i + 1, dist |-> RowMin(inst, ch)]
+
 \* FLPEnv._get_reward: QUIRK RewardFromState: computed from td["chosen"], the `actions`
-\* argument is ignored -- whatever a finished row chose while being padded counts.
+\* argument is ignored (harmless now that padding leaves `chosen` alone).
 RewardM(inst, s, hist) == 0 - SumSeq(RowMin(inst, s.chosen))
 
 ConfState(inst, s, st) ==
